@@ -4,6 +4,18 @@ scratch copy of /repo and records which checks fire with which keys."""
 import os, sys, json, subprocess, glob, re, tempfile, shutil
 VERIF = os.path.dirname(os.path.dirname(os.path.abspath(__file__)))
 NEEDS = {
+ 'C03-reader-preinstalled-at-eof': 'drop of the handle while at least four log files are still to be gone through (lined-up reader + read queue + appending log); with <= 3 nothing shows',
+ 'C04-root-split-loses-left-child': 'a btree root split where both the full root and its left half are stored in the last (multipart) size tier, i.e. very long keys: write_node_plan then rewrites in place and returns None',
+ 'C06-header-not-dirty-on-reuse': 'a freed slot of a tier reused by a commit that makes no other allocation/free in that tier, no later header change before shutdown, reopen, then another insert into the tier',
+ 'C07-deref-ref-pair-cancelled': 'Dereference(k) directly followed by Reference(k) in one commit on a reference-counted hash column while the count of k is exactly 1',
+ 'C09-batch-cap-skips-entries': 'an old index with more than 8192 entries at growth time, and the batch cap being reached in the middle of a chunk; visible after the last batch drops the old table',
+ 'C10-address-overlay-unconditional-remove': 'one commit containing InsertTree (with a non-root node) and DereferenceTree, deferred because the dereferenced tree is locked, with another commit queued behind it; read of the new nodes before the re-queued commit is processed',
+ 'C11-used-trees-shallow-check': 'a reader holding tree A, a queued DereferenceTree(A), and a new tree B that references nodes of A only at depth >= 2',
+ 'C14-header-cache-skips-logging': 'crash with a flushed un-enacted free-list-only record, replay, a first record that restores the exact pre-crash (last_removed, filled) pair, clean reopen, one more allocation in that tier',
+ 'C16-clean-before-error-propagation': 'an I/O fault exactly in the log-write part of process_commits (Log::end_record), then a read of a key of that transaction on the same live handle',
+ 'C17-metadata-columns-sorted-lexicographically': 'at least 11 columns with options that differ between the exchanged positions (col10 sorts before col2)',
+ 'C18-shared-lock-readonly': 'two handles opened with Db::open_read_only on the same directory at overlapping times',
+ 'C20-selection-ignores-compression': 'automatic selection (column not forced), options differing only in compression, source codec lz4/snappy, source holding values above the compression threshold',
  'C02-cleanup-wrong-end': 'same change as C03-cleanup-wrong-end found independently for C02: sync_data=false, >16 enacted logs, crash',
  'C08-check-after-claim': 'a multitree InsertTree whose root is valid but which has a nested node with more than 255 children: the commit is rejected after value slots were claimed',
  'C12-truncate-newest-first': 'at least two logs cleaned in one clean_logs call, both touching the same chunk/entry/header, power loss between the two truncations',
@@ -33,6 +45,18 @@ NEEDS = {
  'C07-skip-set-if-present': 'three queued commits Set(k) / Dereference(k) to zero / Set(k); read after the first two were processed',
 }
 ORIGIN = {
+ 'C03-reader-preinstalled-at-eof': 'read_queue consumer confinement existed and fired, but only because the change added a helper with a new name; confinement made helper-transparent and rule f2 (no unread reader left behind when read_next reports end) added after the seed',
+ 'C04-root-split-loses-left-child': 'rule added after this seed exposed the gap (sibling agreement: every caller of write_node_plan inspects the returned Option - None means rewritten in place - before storing it as an address)',
+ 'C06-header-not-dirty-on-reuse': 'rule existed before the seed (every filled/last_removed update marks the header dirty: C14 1a / C10 5x)',
+ 'C07-deref-ref-pair-cancelled': 'rule added after this seed exposed the gap (the change list of a commit is append-only; every accepted operation is appended)',
+ 'C09-batch-cap-skips-entries': 'rule added after this seed exposed the gap (a source page is iterated without positional adaptors while progress advances by whole pages)',
+ 'C10-address-overlay-unconditional-remove': 'owner-id removal rule existed for C01/C05 but enumerated known sites, so the first report was an anchor count; restructured to enumerate every removal-like call on the overlay maps and attached to C10 as well',
+ 'C11-used-trees-shallow-check': 'rule added after this seed exposed the gap (after claim_tree_values every success path scans the registry; no shortcut on the shape of the new tree)',
+ 'C14-header-cache-skips-logging': 'rule added after this seed exposed the gap (between the atomic test-and-clear of dirty_header and the header write no other condition)',
+ 'C16-clean-before-error-propagation': 'rule existed before the seed for C01/C05 (clean_overlay only on the Ok outcome of end_record); attached to C16 afterwards',
+ 'C17-metadata-columns-sorted-lexicographically': 'rule added after this seed exposed the gap (Metadata.columns is produced in file order: no map/sort between the col lines and the vector)',
+ 'C18-shared-lock-readonly': 'rule existed before the seed (C18 1b: the lock taken on every open path is the exclusive one)',
+ 'C20-selection-ignores-compression': 'rule added after this seed exposed the gap (automatic selection compares every stored-data-affecting option)',
  'C02-cleanup-wrong-end': 'same rule as C03-cleanup-wrong-end (existed when this seed arrived)',
  'C08-check-after-claim': 'rules existed before the seed (C08 K6b effect-before-error gives a new unlisted key; C10 narrowing-cast guard)',
  'C12-truncate-newest-first': 'rule added after this seed exposed the gap (entries drained from a FIFO queue are processed in queue order)',
@@ -61,9 +85,13 @@ ORIGIN = {
  'C13-reseed-seq': 'rule added after this seed exposed the gap (last_enacted is stored only by enact_logs); the design only constrained the store inside enact_logs',
  'C15-wake-boundary': 'rule added after this seed exposed the gap (wake predicate is the complement of the wait predicate)',
 }
+NOT_DETECTED = {
+}
 S = tempfile.mkdtemp(prefix='pdb-seedmeta.')
 REPO = os.path.join(S, 'repo'); CACHE = os.path.join(S, 'cache')
-subprocess.run(['rsync', '-a', '--exclude', 'target', '--exclude', '.git', '/repo/', REPO + '/'], check=True)
+PRISTINE = os.path.join(S, 'pristine')
+subprocess.run(['rsync', '-a', '--exclude', 'target', '--exclude', '.git', '/repo/', PRISTINE + '/'], check=True)
+subprocess.run(['rsync', '-a', PRISTINE + '/', REPO + '/'], check=True)
 env = dict(os.environ, PDB_REPO=REPO, PDB_CACHE=CACHE)
 claimed = [c['property_id'] for c in json.load(open(os.path.join(VERIF, 'MANIFEST.json')))['checks']]
 only = sys.argv[1:]
@@ -83,7 +111,7 @@ for d in sorted(glob.glob(os.path.join(VERIF, 'seeded', '*'))):
             keys = re.findall(r'^VIOLATED \[[^\]]*\] (.*)$', rr.stdout, re.M)
             if rr.returncode == 1 and keys:
                 det[p] = sorted(set(k.split(' ', 1)[1] if k.startswith(p + ' ') else k for k in keys))[:4]
-    subprocess.run(['rsync', '-a', '--delete', '--exclude', 'target', '--exclude', '.git', '/repo/', REPO + '/'], check=True)
+    subprocess.run(['rsync', '-a', '--delete', PRISTINE + '/', REPO + '/'], check=True)
     conf = ''
     cl = os.path.join(d, 'confirm.log')
     if os.path.exists(cl):
@@ -103,7 +131,7 @@ for d in sorted(glob.glob(os.path.join(VERIF, 'seeded', '*'))):
         'rule_origin': ORIGIN.get(name, old.get('rule_origin', 'n/a')),
     }
     if not det:
-        meta['not_detected_reason'] = old.get('not_detected_reason', 'no claimed static rule covers this change (see DESIGN.md section 9)')
+        meta['not_detected_reason'] = NOT_DETECTED.get(name, old.get('not_detected_reason', 'no claimed static rule covers this change (see DESIGN.md section 9)'))
     json.dump(meta, open(mp, 'w'), indent=1)
     print(name, 'applies' if applies else 'DOES NOT APPLY', {k: v[:1] for k, v in det.items()})
 shutil.rmtree(S, ignore_errors=True)
